@@ -7,7 +7,8 @@
               granularity: `recs` = the length-prefixed records of `log.data` in file order (volatile view), `dur` = the
               records as of the last `sync_all`, `entries` = the in-memory `BTreeMap`, `endPos` = `index_end_pos`
               (offset after the record of that index, in records), `last` = the cached `last_index` atomic.
-              `persist_entries` (append each record, `last := max index of THIS batch`), `truncate`/`replace_range`
+              `persist_entries` (append each record, `last := max(last, max index of the batch)` — before /repo 1dcc2fa
+              it was the max of the batch alone, F19), `truncate`/`replace_range`
               (`set_len(end_pos_before(from))`, drop keys ≥ from, `last := greatest key`), `purge` (`set_len(0)`, rewrite
               the kept entries, `sync_all`; `last` untouched; no boundary stored), `reset`, `flush`, `load_from_file`
               (last record of an index wins, `last := greatest index read`), `load_purge_boundary` = None (trait default).
@@ -15,7 +16,7 @@
               keeps index, term < 128 and a 1-byte payload) and no `set_len` *extends* the file; a state in which a stale
               offset extended the file is flagged `hole` for the rest of the run (observed as `unmodelled` on both sides).
   * `RocksStore` — `RocksDBLogStore` (…/rocksdb/rocksdb_storage_engine.rs) at key level: `persist_entries` (one batch of
-              puts, `last := max index of this batch` if > 0), `truncate` (delete keys from `from` upwards *until the first
+              puts, `last := max(last, max index of the batch)`), `truncate` (delete keys from `from` upwards *until the first
               key ≥ the cached last_index*, then `last := from − 1`), `replace_range` (range tombstone [from, ∞) + puts
               in one batch, `last := index of the last new entry` or `from − 1`), `purge` (delete keys ≤ cutoff, boundary
               key := cutoff; `last` untouched), `reset` (delete all, `last := 0`, boundary kept), reopen (`last :=`
@@ -134,7 +135,7 @@ def enumFrom1 (m : Map) : List (Nat × Nat) := enumAux 0 m
 def FileStore.step (s : FileStore) : Op → FileStore
   | .persist es =>
     if es.isEmpty then s else
-    { es.foldl FileStore.append s with last := batchMax es }
+    { es.foldl FileStore.append s with last := max s.last (batchMax es) }   -- `fetch_max` (since /repo 1dcc2fa)
   | .truncate f =>
     let s1 := s.cut f
     { s1 with last := maxKey s1.entries }
@@ -186,7 +187,7 @@ def truncKeys (cur : Nat) : Map → List Nat
 def RocksStore.step (s : RocksStore) : Op → RocksStore
   | .persist es =>
     let mx := batchMax es
-    { s with db := insertAll s.db es, last := if mx > 0 then mx else s.last }
+    { s with db := insertAll s.db es, last := max s.last mx }               -- `fetch_max` (since /repo 1dcc2fa)
   | .truncate f =>
     let del := truncKeys s.last (s.db.filter (f ≤ ·.idx))
     { s with db := s.db.filter (fun e => !del.contains e.idx), last := f - 1 }
